@@ -39,8 +39,8 @@ Definition check_case (c : case) : list N :=
       let m := rules_from_config pp tbl in
       (* a panic is never an acceptable way of refusing a configuration *)
       flag 2 (negb (rec_class =? 2)) ++ flag 2 (negb (fw_class =? 2))
-      (* loaded or refused, as the text says *)
-      ++ flag 1 (Bool.eqb (is_ok m) (rec_class =? 0))
+      (* loaded or refused, as the text says ("loads only if ..." is the property, so a difference is also a failing input) *)
+      ++ flag 1 (Bool.eqb (is_ok m) (rec_class =? 0)) ++ flag 2 (Bool.eqb (is_ok m) (rec_class =? 0))
       (* the rules that were loaded are the ones the text denotes: a functional characterisation, so a difference is a
          failing input *)
       ++ match m with
@@ -49,6 +49,7 @@ Definition check_case (c : case) : list N :=
          end
       (* the real firewall: loads iff the text is accepted and AddRule accepts every rule *)
       ++ flag 1 (Bool.eqb (is_ok (load_config pp cf tbl empty_table)) (fw_class =? 0))
+      ++ flag 2 (Bool.eqb (is_ok (load_config pp cf tbl empty_table)) (fw_class =? 0))
       (* and then admits exactly the packets the text describes *)
       ++ match m with
          | ROk rs =>
